@@ -191,6 +191,43 @@ let mode_gemhist path =
                       "X" ^ String.concat "," (Stdlib.List.map (fun (a, b) -> Printf.sprintf "%d:%d" (nat_to_int a) (nat_to_int b)) ps)) in
               o ^ "|" ^ snapshot h pool) res in
           steps_total := !steps_total + nsteps;
+          (* the property itself, judged on the implementation's snapshots: operands never change, a filled
+             cache holds exactly the boundaries of the content (except in values made by Reverse, which
+             installs mirrored boundaries on purpose), observers answer as a fresh value would *)
+          (let prev = ref [||] in
+           let reversed = ref [||] in
+           let fails = ref [] in
+           Stdlib.List.iteri (fun k (op, tok) ->
+               match String.index_opt tok '|' with
+               | None -> ()
+               | Some b ->
+                 let out = String.sub tok 0 b in
+                 let snap = String.sub tok (b + 1) (String.length tok - b - 1) in
+                 let vals = if snap = "-" then [||] else Array.of_list (Stdlib.List.map (fun v -> Array.of_list (String.split_on_char '/' v)) (String.split_on_char ';' snap)) in
+                 Array.iteri (fun j old -> if j < Array.length vals && vals.(j).(0) <> old.(0) then fails := (k, "operand " ^ string_of_int j ^ " altered") :: !fails) !prev;
+                 let nrev = Array.make (Array.length vals) false in
+                 Array.blit !reversed 0 nrev 0 (min (Array.length !reversed) (Array.length nrev));
+                 if Array.length vals > Array.length !prev then begin
+                   let j = Array.length vals - 1 in
+                   (match op with
+                    | GHeap.GReverse _ -> nrev.(j) <- true
+                    | GHeap.GCopy i | GHeap.GSub (i, _, _) -> let i = nat_to_int i in if i < Array.length !reversed then nrev.(j) <- (!reversed).(i)
+                    | _ -> ())
+                 end;
+                 reversed := nrev;
+                 let fresh_ends v = itok (Segment.split_runes cls (if v = "-" then [] else Stdlib.List.map z_of_string (String.split_on_char ',' v))) in
+                 Array.iteri (fun j v -> if Array.length v = 4 && v.(2) = "f" && not nrev.(j) && v.(3) <> fresh_ends v.(0) then
+                                 fails := (k, "stale cache in value " ^ string_of_int j) :: !fails) vals;
+                 (match op with
+                  | GHeap.GLen i ->
+                    let i = nat_to_int i in
+                    if i < Array.length vals && not nrev.(i) && out <> "P" then begin
+                      let e = fresh_ends vals.(i).(0) in
+                      let cnt = if e = "-" then 0 else Stdlib.List.length (String.split_on_char ',' e) in
+                      if out <> "I" ^ string_of_int cnt then fails := (k, "Len differs from a fresh value") :: !fails end
+                  | _ -> ());
+                 prev := vals) (Stdlib.List.combine ops right);
+           Stdlib.List.iter (fun (k, what) -> Printf.printf "GEMFAIL %s step=%d %s\n" t.(0) k (String.concat "_" (String.split_on_char ' ' what))) (Stdlib.List.rev !fails));
           if toks <> right then begin
             incr bad;
             if !bad <= 10 then begin
@@ -205,6 +242,42 @@ let mode_gemhist path =
      done with End_of_file -> ());
   close_in ic;
   Printf.printf "GEMHIST %d %d %d\n" !n !bad !steps_total
+
+(* probes FILE: first line "CTX n pre suf ...", then "value signature" lines; the model's signature
+   (break bits between all adjacent positions and cluster count, per probe context) depends on the
+   value only through its class, so it is computed once per class *)
+let mode_probes path =
+  let ic = open_in path in
+  let n = ref 0 and bad = ref 0 in
+  let ctx = ref [] in
+  let cache = Hashtbl.create 16 in
+  let runes s = if s = "-" then [] else Stdlib.List.map z_of_string (String.split_on_char ',' s) in
+  let model_sig r =
+    String.concat "" (Stdlib.List.map (fun (pre, suf) ->
+        let rs = pre @ [r] @ suf in
+        let ends = Stdlib.List.map nat_to_int (Segment.split_runes cls rs) in
+        let len = Stdlib.List.length rs in
+        let bits = String.concat "" (Stdlib.List.init (len - 1) (fun i -> if Stdlib.List.mem (i + 1) ends then "1" else "0")) in
+        bits ^ string_of_int (Stdlib.List.length ends) ^ ".") !ctx) in
+  (try while true do
+       let l = input_line ic in
+       (match String.split_on_char ' ' l with
+        | "CTX" :: _ :: rest ->
+          let rec pairs = function a :: b :: tl -> (runes a, runes b) :: pairs tl | _ -> [] in
+          ctx := pairs rest
+        | [rt; sg] ->
+          incr n;
+          let r = z_of_string rt in
+          let c = Go.go_class_of r in
+          let expect = (match Hashtbl.find_opt cache c with
+              | Some e -> e
+              | None -> let e = model_sig r in Hashtbl.add cache c e; e) in
+          if expect <> sg then begin
+            incr bad; if !bad <= 20 then Printf.printf "PROBEDIFF %s impl=%s model=%s\n" rt sg expect end
+        | _ -> ())
+     done with End_of_file -> ());
+  close_in ic;
+  Printf.printf "PROBES %d %d\n" !n !bad
 
 (* sweepcls FILE: lines "value bits"; the class the model's decision tree gives
    must be the class the implementation's predicate bits give *)
@@ -257,5 +330,6 @@ let () =
   | [_; "split"; p] -> mode_split p
   | [_; "sweepcls"; p] -> mode_sweepcls p
   | [_; "gemhist"; p] -> mode_gemhist p
+  | [_; "probes"; p] -> mode_probes p
   | [_; c; r] -> mode_cases c r
   | _ -> prerr_endline "usage: driver CASES RESULTS | driver split FILE | driver sweepcls FILE"; exit 2
